@@ -1,4 +1,5 @@
 import XmppModel.Model.Close
+import XmppModel.Model.CloseProbe
 import XmppModel.Lemmas.Close
 import XmppModel.Generated.C10
 /-!
@@ -12,21 +13,65 @@ open XmppModel.Close
 
 /-! ### Tie to the source -/
 
-/-- every transmit entry point tests `OutputStreamClosed` after taking the output lock and
-before touching the encoder; `Close` and `sendError` take the output lock for their whole body
-and do not take the state lock themselves; `closeSession` takes the state lock, tests the bit,
-sets it, releases the state lock and only then writes the tag (hypothesis `heldDuringWrite =
-false` of `C10_close_does_not_block_reads`);
-`SetCloseDeadline` replaces the input context under the state lock and `Serve` reads it only
-through `inputErr`, which takes the read lock (the data race the race detector reported before
-the repair) -/
-theorem C10_gen_checks :
-    Generated.C10.checksClosed = some [("Encode", true), ("EncodeElement", true), ("send", true)] ∧
-    Generated.C10.closersLock = some [("Close", true), ("sendError", true)] ∧
-    Generated.C10.closeSessionShape = some true ∧
-    Generated.C10.writerChecksPerToken = some true ∧
-    Generated.C10.readerChecksPerToken = some true ∧
+/-- **lock discipline** (what cannot be probed from one goroutine; regenerated from the source by
+an abstract walk that follows calls into the package, closures and method values, accepts if
+chains and switches alike and takes the names of the locks from the exported anchors
+`TokenWriter` / `State`): every exported entry point that looks at or sets the closed bit of the
+output stream — in its body or in any helper — does so while it holds the output lock (so the
+answer of the test cannot be overtaken by a `Close`: hypothesis `checks` of the `Lts` senders, the
+`locked` control point); the input context `SetCloseDeadline` replaces is touched under the state
+mutex only (the data race of round 1). -/
+theorem C10_gen_lock_discipline :
+    Generated.C10.closedBitUnderOutputLock = some
+      [("Close", true), ("Encode", true), ("EncodeElement", true), ("Send", true), ("SendElement", true), ("Serve", true)] ∧
     Generated.C10.deadlineSynchronised = some true := by decide
+
+/-- **probe fact** (the real session was run by `harness facts`): for every way the streams get
+closed — `Close`, `Close` twice, `Serve` ending on the peer's closing tag, on a handler error
+(`sendError`), on a handler's stream error, on the close deadline, `Close` followed by `Serve` —
+and for the open session, **every** transmit entry point (all `Send*`/`Encode*`/`SendIQ*`/
+`SendMessage*`/`SendPresence*`/`UnmarshalIQ*`/`IterIQ*` families, the three methods of the token
+writer), `Close` and the token reader return the error class the history machine computes, and
+touch the connection exactly when the machine says so: after closing, `ErrOutputStreamClosed` and
+not one `Write` on the connection; `Close` again returns nil and writes nothing; the reader
+returns `ErrInputStreamClosed` without a `Read` once `Serve` has returned.  No source pattern is
+involved: helpers, renames, switch/if do not matter; a lost check does. -/
+theorem C10_probe_transmit : Generated.C10.transmitProbe = some Probe.transmitTable := by decide
+
+/-- **probe fact**: seen from inside the connection's `Write` that receives the closing tag, on
+every path that writes it (`Close`, `sendError`, `Serve`'s deferred `Close`): the closed bit is
+already set, `State()` can be read (the state mutex is not held across the write), the output lock
+is held — the state `RwLts` (repaired lock shape) is in while its closer is at `writing` — and the
+number of closing tags at the end is the one `Hist` computes (one). -/
+theorem C10_probe_close_write : Generated.C10.closeWriteProbe = some Probe.closeWriteTable := by decide
+
+/-- what the table says at the model's level: bit set, state mutex free, output lock held -/
+theorem C10_probe_close_write_view : Probe.writeView false = (true, true, true) := by decide
+
+/-- negation witness: with the state mutex held across the write (the shape before the repair)
+the probe would see `State()` blocked -/
+theorem C10_probe_close_write_old_shape : Probe.writeView true = (true, false, true) := by decide
+
+/-- every row of the probe table for a closed output stream says `closedout` / nothing written,
+for every transmit entry -/
+theorem C10_probe_closed_rows :
+    ∀ w ∈ Probe.ways, (Probe.stateAfter w).outClosed = true →
+      ∀ e ∈ Probe.entries, ∀ b, e.2 = .tx b → Probe.cell (Probe.stateAfter w) e = (e.1, "closedout", false) := by
+  decide
+
+/-- the probe table has a column for every transmit family of the property's text (the same list as
+`C10_gen_entry_points_complete`), for `Close`, and for the two token interfaces -/
+theorem C10_probe_entries_complete :
+    ∀ n ∈ ["Send", "SendElement", "Encode", "EncodeElement", "SendIQ", "SendIQElement", "EncodeIQ", "EncodeIQElement",
+        "SendMessage", "SendMessageElement", "EncodeMessage", "EncodeMessageElement", "SendPresence",
+        "SendPresenceElement", "EncodePresence", "EncodePresenceElement", "UnmarshalIQ", "UnmarshalIQElement",
+        "IterIQ", "IterIQElement", "Close", "TokenWriter.EncodeToken", "TokenWriter.Flush", "TokenWriter.Close",
+        "TokenReader.Token"], n ∈ Probe.entries.map (·.1) := by decide
+
+/-- non-vacuity: eight of the nine ways leave the output closed; on the open session every
+transmit entry reaches the connection -/
+example : (Probe.ways.filter fun w => (Probe.stateAfter w).outClosed).length = 8 := by decide
+example : ∀ e ∈ Probe.entries, e.2 ≠ .read → (Probe.cell (Probe.stateAfter ⟨"open", false, []⟩) e).2.2 = true := by decide
 
 /-- the functions of the package that write to the encoder or to the connection themselves:
 the three one-shot transmit functions (they test the closed bit, `C10_gen_checks`), the token
